@@ -54,7 +54,8 @@ CHECKS['C03'] = {
              'Does NOT decide that the values returned equal an independent decode for every accepted packet, nor panic-freedom of the trusted readers (run-time invariants of accepted packets).'
              ' (f) a step function returns None only on the true side of a `<header count | edns_count | rrs_left> == 0` test.'
              ' (g) the premise of the unchecked address readers: every accepting path with type A / AAAA passed the exact-size test.'
-             ' (h) every assertion in the trusted name skipper is implied (linear entailment) by what the validator guarantees behind a name position.'),
+             ' (h) every assertion in the trusted name skipper is implied (linear entailment) by what the validator guarantees behind a name position.'
+             ' (i) every length demand of rr_ip beyond the 10 fixed record bytes (assertion or constant sub-slice) is dominated by the true edge of the record-type test whose validated size covers it.'),
     'note': 'Structural clauses only; the behavioural equality with an RFC 1035 decode is not claimed. Trusted: rustc MIR, the rule engines.',
 }
 CHECKS['C08'] = {
@@ -186,7 +187,8 @@ CHECKS['C02'] = {
              'the name-bearing type sets of validator, decompressor, compressor and renamer coincide. '
              'NOT decided: that these clauses together are the whole accepted language (both directions of the iff), "never to a root label", completeness beyond the numeric limits.'
              ' Also decided: every successful path of parse_opt raises the flag (edns_end = Some) that its only-one-OPT test reads.'
-             ' Path-sensitively: every Ok path of parse_rr on which the type is A / AAAA passes the rdlen == 4 / 16 test.'),
+             ' Path-sensitively: every Ok path of parse_rr on which the type is A / AAAA passes the rdlen == 4 / 16 test.'
+             ' Path-sensitively: in every loop iteration of check_compressed_name that accounts a label, the label-byte predicate is run and found false before the next iteration or the acceptance.'),
     'note': 'Trusted: tables/policy.json, analysis/interp.py contracts, analysis/bits.py. Language equality is not a static object; only its visible clauses are claimed.',
 }
 CHECKS['C05'] = {
@@ -232,8 +234,9 @@ CHECKS['C13'] = {
     'text': ('Decides: (a) for every string: each of the ~15 local bodies below from_string that contains a potential panic is analysed with arbitrary arguments; every overflow assert, array range, byteorder write and unwrap is discharged outright or under one of four stated contracts, each tied to a MIR check '
              '(digit source, sum of lengths of input substrings, unit-increment usize counter, ASCII-only predicate before from_utf8().unwrap()); any other unwrap on input-derived data is reported; '
              '(b) RR::new writes TTL/CLASS/TYPE/RDLENGTH at the RFC offsets with rdlength = len(rdata); SOA counters at 0/4/8/12/16 from the right arguments; MX/DS 16-bit field first; every TXT length byte is the length of a chunks(255) item, hence in [1,255]; '
-             '(c) mnemonic -> Type and Type -> (parser, builder) are the expected tables; (d) decimal folds use checked arithmetic only. '
-             'NOT decided: the accepted text grammar (whitespace, escapes, field counts) and wire-form equality beyond these layouts.'),
+             '(c) mnemonic -> Type and Type -> (parser, builder) are the expected tables; (d) decimal folds use checked arithmetic only; '
+             '(e) every byte predicate handed to take_while / take_while1 below from_string refuses each byte the field separator class accepts (bit-level evaluation, stateful closures along every branch of their state), so no token can swallow the fields behind it. '
+             'NOT decided: the rest of the accepted text grammar (escapes, exact field counts) and wire-form equality beyond these layouts.'),
     'note': 'Contracts listed under assumptions in the evidence. chomp combinators are opaque, effect-free models. Trusted: tables/rfc_layout.json.',
 }
 NOT_APPLICABLE = {('C%02d' % i): PENDING for i in range(1, 19) if ('C%02d' % i) not in CHECKS}
